@@ -82,7 +82,7 @@ theorem same_window_not_after (W q t : Nat) (hW : 0 < W) (h : t / W = q / W) :
   rw [← h, Nat.mul_comm]
   omega
 
-theorem new_window_after (W q t : Nat) (hW : 0 < W) (hqt : q ≤ t) (hb : t % W ≠ 0) (h : t / W ≠ q / W) :
+theorem new_window_after (W q t : Nat) (_hW : 0 < W) (hqt : q ≤ t) (hb : t % W ≠ 0) (h : t / W ≠ q / W) :
     t > (q / W) * W + W := by
   have h1 := Nat.div_add_mod t W
   have h3 : q / W ≤ t / W := Nat.div_le_div_right hqt
